@@ -92,7 +92,7 @@ def minPolyLoop (l : Nat) : Nat → Nat → Nat → Nat → Nat → Nat
 
 /-- `ppMinPoly(b, a, l, stack)`: `a` is cut to 2l bits -/
 def ppMinPoly (s l : Nat) : Nat :=
-  minPolyLoop l (2 * l + 2) (s % 2 ^ (2 * l)) (2 ^ (2 * l)) 1 0
+  minPolyLoop l (2 * l + 1) (s % 2 ^ (2 * l)) (2 ^ (2 * l)) 1 0
 
 /-- `ppMinPolyMod(b, a, mod, n, stack)` with `l = ppDeg(mod)` -/
 def ppMinPolyMod (a md : Nat) : Nat :=
